@@ -145,6 +145,8 @@ class CxS(Cx):
             if isinstance(base, list) and isinstance(idx, int):
                 if not 0 <= idx < len(base):
                     raise CxPanic("index %d out of bounds (len %d)" % (idx, len(base)))
+                if isinstance(base[idx], (Cell, FieldRef)):
+                    return base[idx]      # a window of references (chunks_mut, split_at_mut of scalars): write through
                 return Cell(base, idx)
             raise CxUnknown("index on %s" % type(base).__name__)
         if k == "Unary" and e.get("op") == "Deref":
@@ -355,7 +357,11 @@ class CxS(Cx):
                 env.update(trial)
                 return self.ev(e["then"], env)
             return self.ev(e["else"], env) if e.get("else") is not None else None
-        if dderef(self.ev(c, env)):
+        try:
+            cv = dderef(self.ev(c, env))
+        except CxUnknown as ex:
+            return self.undecided_if(e, env, ex)
+        if cv:
             return self.ev(e["then"], env)
         if e.get("else") is not None:
             return self.ev(e["else"], env)
@@ -462,6 +468,76 @@ class CxS(Cx):
                 for x in rv:
                     s = s + dderef(x)
                 return s
+            if nm == "fold" and len(args) == 2:
+                acc = dderef(self.ev(args[0], env))
+                cl = dderef(self.ev(args[1], env))
+                if isinstance(cl, Closure):
+                    for x in rv:
+                        acc = self.call_closure(cl, [acc, x])
+                    return acc
+            if nm == "step_by" and len(args) == 1:
+                n_ = dderef(self.ev(args[0], env))
+                if isinstance(n_, int) and n_ > 0:
+                    return rv[::n_]
+            if nm in ("take", "skip") and len(args) == 1:
+                n_ = dderef(self.ev(args[0], env))
+                if isinstance(n_, int):
+                    return rv[:n_] if nm == "take" else rv[n_:]
+            if nm == "chain" and len(args) == 1:
+                o = dderef(self.ev(args[0], env))
+                if isinstance(o, list):
+                    return list(rv) + list(o)
+            if nm in ("filter", "take_while", "skip_while", "all", "any", "position", "find") and len(args) == 1:
+                cl = dderef(self.ev(args[0], env))
+                if isinstance(cl, Closure):
+                    def test(x):
+                        r_ = self.call_closure(cl, [x])
+                        if not isinstance(r_, bool):
+                            raise CxUnknown("iterator predicate is not decided")
+                        return r_
+                    if nm == "filter":
+                        return [x for x in rv if test(x)]
+                    if nm == "all":
+                        return all(test(x) for x in rv)
+                    if nm == "any":
+                        return any(test(x) for x in rv)
+                    if nm in ("position", "find"):
+                        for i_, x in enumerate(rv):
+                            if test(x):
+                                payload = i_ if nm == "position" else x
+                                return {"__adt": "std::option::Option", "__variant": "std::option::Option::Some", "0": payload}
+                        return {"__adt": "std::option::Option", "__variant": "std::option::Option::None"}
+                    out_, dropping = [], True
+                    for x in rv:
+                        if nm == "take_while":
+                            if not test(x):
+                                break
+                            out_.append(x)
+                        else:
+                            if dropping and test(x):
+                                continue
+                            dropping = False
+                            out_.append(x)
+                    return out_
+            if nm == "count" and not args:
+                return len(rv)
+            if nm in ("chunks_exact_mut", "chunks_mut", "chunks_exact", "chunks") and len(args) == 1:
+                n_ = dderef(self.ev(args[0], env))
+                if isinstance(n_, int) and n_ > 0:
+                    stop = len(rv) - (len(rv) % n_) if "exact" in nm else len(rv)
+                    if nm.endswith("_mut"):
+                        return [[Cell(rv, i) for i in range(a_, min(a_ + n_, stop))] for a_ in range(0, stop, n_)]
+                    return [rv[a_:min(a_ + n_, stop)] for a_ in range(0, stop, n_)]
+            if nm in ("split_at_mut", "split_at") and len(args) == 1:
+                n_ = dderef(self.ev(args[0], env))
+                if isinstance(n_, int) and 0 <= n_ <= len(rv):
+                    if all(isinstance(x, list) for x in rv):
+                        return (rv[:n_], rv[n_:])          # rows are shared objects: writes through either half are seen
+                    if nm == "split_at":
+                        return (rv[:n_], rv[n_:])
+                    return ([Cell(rv, i) for i in range(n_)], [Cell(rv, i) for i in range(n_, len(rv))])
+                if isinstance(n_, int):
+                    raise CxPanic("split_at(%d) of a slice of length %d" % (n_, len(rv)))
             if nm == "push" and len(args) == 1:
                 rv.append(dderef(self.ev(args[0], env)))
                 return None
